@@ -180,8 +180,13 @@ class IMAPConnection:
                 lit_plus = self._literal_plus.search(buf)
             else:
                 lit_plus = None
+            literal_length: int | None = None
             if lit_plus:
-                literal_length = int(lit_plus.group(1))
+                try:
+                    literal_length = int(lit_plus.group(1))
+                except ValueError:
+                    pass  # too many digits, left for the parser to reject
+            if literal_length is not None:
                 buf += await self.reader.readexactly(literal_length)
                 buf += await self.reader.readline()
             else:
